@@ -34,6 +34,14 @@ CAUGHT = {
  'C29-a': (['C29'], ''),
  'C30-a': (['C30'], 'first missed; caught after the C30 generator learned documents with per-line mixed line ends and multi-byte characters on many lines'),
  'C31-a': (['C31'], ''),
+ 'C04-b': (['C04'], ''),
+ 'C06-b': (['C06'], ''),
+ 'C07-b': (['C07', 'C01'], ''),
+ 'C09-b': (['C09'], 'first missed; caught after the grammar generator learned groups with an empty alternative, `( x | )`'),
+ 'C10-b': (['C10'], 'first missed; caught after C10 learned grammars with lookahead variants of one terminal text and AST-control attributes on occurrences'),
+ 'C14-b': (['C14'], ''),
+ 'C17-b': (['C17'], ''),
+ 'C20-b': (['C20'], 'first missed; caught after C20 learned the option combination depth limit x tree trimming (same limit must behave identically with and without trimming)'),
  'C22-a': (['C22'], ''),
  'C23-a': (['C23'], 'the first run crashed the harness (exit 101): the grammar-level minimiser did not re-index the inputs after removing a terminal; fixed, minimisation now runs under catch_unwind'),
  'C01-b': (['C01', 'C08'], ''),
